@@ -3,7 +3,7 @@
 # SPDX-License-Identifier: Apache License 2.0
 import numpy
 
-from libsigopt.compute.covariance_base import DifferentiableCovariance
+from libsigopt.compute.covariance_base import DifferentiableCovariance, HyperparameterInvalidError
 
 
 """
@@ -83,6 +83,8 @@ class MultitaskTensorCovariance(DifferentiableCovariance):
     hyperparameters = numpy.copy(hyperparameters)
     assert len(hyperparameters.shape) == 1 and len(hyperparameters) >= 3
 
+    if not (numpy.isfinite(hyperparameters[0]) and hyperparameters[0] > 0):
+      raise HyperparameterInvalidError()
     self.process_variance = hyperparameters[0]
 
     physical_hyperparameters = hyperparameters[:-1]
